@@ -74,6 +74,22 @@ def execute(ctx, case):
         ref[order.index(l), order.index(p)] = v
     C(cm.matrix.shape == (K, K) and np.allclose(cm.matrix, ref, rtol=1e-12, atol=1e-12), "matrix entry [i,j] is not the total weight of (label i, prediction j)", "cmx-build", got=cm.matrix, expected=ref)
     C(list(cm.classes) == order, "classes are not in the requested order", "cmx-classes", got=list(cm.classes))
+    # the same samples handed over in other containers: lists, tuples, pandas Series with a non-default index (a column of a
+    # sorted / shuffled / filtered frame) - positions are what pairs label, prediction and weight, never index labels
+    m_ = len(lab)
+    idx_ = (np.random.default_rng(m_ + K).permutation(m_) * 2 + 5) if m_ else np.zeros(0, dtype=int)
+    forms = [("lists", lab, pred, None if w is None else w.tolist()),
+             ("series", pd.Series(lab, index=idx_, dtype=object if dt.kind in "OU" else None), pd.Series(pred, index=idx_[::-1], dtype=object if dt.kind in "OU" else None),
+              None if w is None else pd.Series(w, index=idx_[::-1] + 1)),
+             ("tuples+weights-series", tuple(lab), tuple(pred), None if w is None else pd.Series(w, index=np.roll(idx_, 1)))]
+    for fname, l_, p_, w_ in forms:
+        try:
+            cmf = ConfusionMatrix(labels=l_, predictions=p_, weights=w_, classes=order)
+        except Exception as e:  # noqa: BLE001
+            C(False, "constructor raised for the same samples in another container", "cmx-build-form", form=fname, exc=repr(e))
+            continue
+        C(cmf.matrix.shape == (K, K) and np.allclose(np.asarray(cmf.matrix, dtype=float), ref, rtol=1e-12, atol=1e-12),
+          "matrix differs when the same samples are given in another container", "cmx-build-form", form=fname, got=cmf.matrix, expected=ref)
     present = sorted(set(lab) | set(pred))
     if len(present) >= 2:  # default class order: sorted distinct values
         cm0 = ConfusionMatrix(labels=np.asarray(lab, dtype=dt), predictions=np.asarray(pred, dtype=dt), weights=w)
